@@ -72,13 +72,13 @@ def theta_for(W, rng, nf, dmin=1.0):
 
 
 def fitter_kwargs(W, scen):
-    return dict(extinction_law=W.extinction(), av_range=list(scen['av_range']),
-                distance_range=list(scen['drange']) * u.kpc)
+    dr = (list(scen['drange']) * u.kpc).to(u.Unit(W.spec.get('d_unit', 'kpc')))
+    return dict(extinction_law=W.extinction(), av_range=list(scen['av_range']), distance_range=dr)
 
 
 def filter_args(W, scen):
     names = [f['name'] for f in W.fspec]
-    return names, np.array(scen['theta'], float) * u.arcsec
+    return names, (np.array(scen['theta'], float) * u.arcsec).to(u.Unit(W.spec.get('ap_unit', 'arcsec')))
 
 
 def read_fit_raw(path):
